@@ -591,6 +591,60 @@ impl Property for C19 {
         if al.i != toks.len() && !matches!(doc, ANode::Attribute(..) | ANode::Namespace(..)) {
             return Verdict::Fail(format!("output has extra content {:?} [output {:?}]", &toks[al.i..], s));
         }
+        // (late draw) the *_with_normalizer entry point: escaping happens AFTER normalisation. Metamorphic:
+        // serialising with a toy normalizer (fullwidth '<' and '&' become ASCII) == serialising the tree
+        // whose text already has that mapping applied
+        if ctx.knobs.variant == 0 && src.ratio(1, 6) {
+            struct Toy;
+            impl xot::output::Normalizer for Toy {
+                fn normalize<'a>(&self, content: std::borrow::Cow<'a, str>) -> std::borrow::Cow<'a, str> {
+                    if content.contains('\u{ff1c}') || content.contains('\u{ff06}') {
+                        std::borrow::Cow::Owned(content.replace('\u{ff1c}', "<").replace('\u{ff06}', "&"))
+                    } else {
+                        content
+                    }
+                }
+            }
+            fn set_first_text(n: &mut ANode, to: &str, inside_raw: bool) -> bool {
+                match n {
+                    ANode::Text(t) if !inside_raw => {
+                        *t = to.to_string();
+                        true
+                    }
+                    ANode::Element(e) => {
+                        let raw = is_raw_text(&e.name);
+                        e.children.iter_mut().any(|c| set_first_text(c, to, raw))
+                    }
+                    ANode::Document(ch) => ch.iter_mut().any(|c| set_first_text(c, to, false)),
+                    _ => false,
+                }
+            }
+            let wide = ["\u{ff1c}", "\u{ff06}\u{ff1c}", "x\u{ff1c}y\u{ff06}", "\u{ff06}"][src.choice(4)];
+            let mapped = wide.replace('\u{ff1c}', "<").replace('\u{ff06}', "&");
+            let mut d2 = doc.clone();
+            let mut d3 = doc.clone();
+            if set_first_text(&mut d2, wide, false) && set_first_text(&mut d3, &mapped, false) {
+                ctx.label("toy_normalizer");
+                let mut hs = vec![];
+                let (r2, r3) = match (bridge::build(&mut xot, &d2, &mut hs), bridge::build(&mut xot, &d3, &mut hs)) {
+                    (Ok(a), Ok(b)) => (a, b),
+                    _ => return Verdict::Fail("harness: cannot build the trees for the normalizer comparison".into()),
+                };
+                let h = xot.html5();
+                let p0 = || Parameters { indentation: None, cdata_section_elements: vec![] };
+                let a = guarded(|| h.serialize_string_with_normalizer(p0(), r2, Toy));
+                let b = guarded(|| h.serialize_string(p0(), r3));
+                match (a, b) {
+                    (Ok(Ok(a)), Ok(Ok(b))) => {
+                        if a != b {
+                            return Verdict::Fail(format!("with a normalizer that turns fullwidth < & into ASCII the output is {:?}, serialising the already normalised tree gives {:?}", a, b));
+                        }
+                    }
+                    (Err(p), _) | (_, Err(p)) => return Verdict::Fail(format!("HTML5 serialisation with a normalizer panicked: {}", p)),
+                    _ => {}
+                }
+            }
+        }
         Verdict::Pass
     }
 }
